@@ -4,6 +4,7 @@
    the specification Spec/ExecSpec.v. *)
 From PyGql Require Import Spec.ExecSpec Exec.ExecCache Proofs.ExecTopProofs.
 From PyGql Require Import Proofs.DepthTermination Proofs.ExecTermination.
+From PyGql Require Import Proofs.ExecCollectFull Proofs.ExecSpecFull Proofs.ExecTerminates.
 
 (* Response keys: the keys of every response object are the keys of the
    grouped fields the object type defines, in grouping order; the groups have
@@ -180,6 +181,58 @@ Theorem C04_exec_eq_spec_partial :
 Proof. exact exec_sel_spec. Qed.
 Print Assumptions C04_exec_eq_spec_partial.
 
+(* ---- full strength under acyclic fragments (what NoFragmentCycles gives) *)
+
+(* CollectFields, arbitrary nesting of spreads inside fragments and inline
+   fragments: the code's grouping (with its seen-set quirk) has the keys of
+   the specification's CollectFields in the same order, per key the same set
+   of nodes, and per key the code's node list is the specification's node
+   list (document order) with extra occurrences of nodes that occur earlier
+   in it ([Ext []]; in particular the first node is the same). This is the
+   body of C04_collect_full, plus the ordering half. *)
+Theorem C04_collect_full_acyclic :
+  forall applies frags vs rank mc fuel ss g,
+    acyclic frags rank ->
+    collect applies frags vs mc fuel ss = Ok g ->
+    exists g', SCollect applies frags vs ss g' /\ keys g = keys g' /\
+               Forall2 (fun a b => incl (snd a) (snd b) /\ incl (snd b) (snd a)) g g' /\
+               Forall2 (fun a b => Ext [] (snd b) (snd a)) g g'.
+Proof. exact collect_full. Qed.
+Print Assumptions C04_collect_full_acyclic.
+
+(* The executor's result IS a result of the specification's algorithm with
+   the specification's CollectFields at every level: same ordered data, same
+   errors in the same order with the same paths and kinds, the locations
+   inside an error equal as sets (repeated nodes repeat a location). This is
+   the body of C04_exec_eq_spec_full (its schema hypothesis is not needed). *)
+Theorem C04_exec_eq_spec_full_acyclic :
+  forall sch frags vs coerce_args world tyres cfuel rank,
+    acyclic frags rank ->
+    forall fuel tname v p sels r,
+      exec_sel sch frags vs coerce_args world tyres cfuel fuel tname v p sels = Ok r ->
+      exists es',
+        SSel sch coerce_args world tyres (fun tn ss g => SCollect (applies sch tn) frags vs ss g)
+             tname v p sels (fst r) es' /\
+        Forall2 (fun e e' => e_path e = e_path e' /\ e_kind e = e_kind e' /\
+                             incl (e_locs e) (e_locs e') /\ incl (e_locs e') (e_locs e)) (snd r) es'.
+Proof. exact exec_eq_spec_full. Qed.
+Print Assumptions C04_exec_eq_spec_full_acyclic.
+
+(* Fuel adequacy of the whole executor: for every request -- any schema,
+   selections, variables, resolver world, type resolvers, root value -- with
+   acyclic fragments and an argument coercion that itself terminates, there
+   are amounts of object-level fuel and collect fuel from which on the run
+   never ends in OutOfFuel: it yields a result, a rejection or a crash. *)
+Theorem C04_exec_terminates :
+  forall sch frags vs coerce_args world tyres rank,
+    acyclic frags rank ->
+    (forall fd node, coerce_args fd node <> OutOfFuel) ->
+    forall ss tname v p,
+      exists F CF, forall fuel cfuel, F <= fuel -> CF <= cfuel ->
+        exec_sel sch frags vs coerce_args world tyres cfuel fuel tname v p ss <> OutOfFuel.
+Proof. exact exec_terminates. Qed.
+Print Assumptions C04_exec_terminates.
+
 (* ------------------------------------------------------------ non-vacuity *)
 Local Open Scope string_scope.
 Definition ex_s (x : string) : str := str_of_string x.
@@ -242,3 +295,16 @@ Example C04_example_history :
             (fun _ _ => false) (fun _ _ => false) 50 10
             (Doc [DOperation OpQuery None [] [] None ex_sels None] None) None [] PNone empty_cache)).
 Proof. apply Reach_served; try discriminate. apply Reach_new. Qed.
+
+(* acyclic fragment tables exist beyond the empty one: F spreads G *)
+Example C04_example_acyclic :
+  acyclic [(ex_s "F", (TNamed (Name (ex_s "T") None) None,
+                       [SSpread (Name (ex_s "G") None) [] None; ex_field "s" []]));
+           (ex_s "G", (TNamed (Name (ex_s "T") None) None, [ex_field "n" []]))]
+          (fun n => if str_eqb n (ex_s "F") then 1 else 0).
+Proof.
+  unfold acyclic, bounded. intros n tc fsels H m Hm Hd. cbn [alookup] in H.
+  destruct (str_eqb n (ex_s "F")) eqn:E1.
+  - inversion H; subst. vm_compute in Hm. destruct Hm as [<-|[]]. vm_compute. lia.
+  - destruct (str_eqb n (ex_s "G")); [|discriminate]. inversion H; subst. vm_compute in Hm. destruct Hm.
+Qed.
